@@ -236,13 +236,13 @@ PY_CONFIRM = {'c17_step': lambda ses, v: confirm_builder(ses, v, ('c17',)), 'c17
 
 
 # ----------------------------------------------------------------------------- parser scenarios (C11, C12, C15, C16): native search guided by the solver's finding
-PAYLOADS = [{'iat': '2019-01-01T00:00:00+00:00'}, {'iat': '2020-02-02T00:00:00+00:00'}, {}, {'sub': 'a'}, {'sub': 'b'}, {'n': 1}, {'n': '1'}, {'a/b': 'x'}, {'sub': 'a', 'n': 1}, {'x': None}, {'x': 'v'}, {'a~b': 'y', 'sub': 'a'}]
+PAYLOADS = [{'nbf': '2099-01-01T00:00:00Z'}, {'exp': '2001-01-01T00:00:00Z'}, {'iat': '2019-01-01T00:00:00+00:00'}, {'iat': '2020-02-02T00:00:00+00:00'}, {}, {'sub': 'a'}, {'sub': 'b'}, {'n': 1}, {'n': '1'}, {'a/b': 'x'}, {'sub': 'a', 'n': 1}, {'x': None}, {'x': 'v'}, {'a~b': 'y', 'sub': 'a'}]
 TIME_PAYLOADS = [{'exp': '2099-01-01T00:00:00Z'}, {'exp': '2001-01-01T00:00:00Z'}, {'exp': '2001-01-01T00:00:00+05:30'}, {'exp': '2099-01-01T00:00:00-01:00'}, {'exp': 5}, {'exp': [5]}, {'exp': ''}, {'exp': 'soon'},
                  {'exp': True}, {'exp': None}, {}, {'nbf': '2001-01-01T00:00:00Z'}, {'nbf': '2099-01-01T00:00:00Z'}, {'nbf': '2099-01-01T00:00:00-08:00'}, {'nbf': '2001-01-01T00:00:00+05:30'}, {'nbf': True}, {'nbf': 7},
                  {'nbf': ''}, {'nbf': {}}, {'exp': '2099-01-01T00:00:00Z', 'nbf': '2001-01-01T00:00:00Z'}, {'exp': '2019-01-01T00:00:00+00:00'}, {'nbf': '2019-01-01T00:00:00+00:00'},
                  {'exp': '2001-01-01 00:00:00Z'}, {'exp': '2099-01-01T00:00:00.123456789Z'}, {'exp': '9999-12-31T23:59:59-01:00'}, {'nbf': '9999-12-31T12:00:00-13:00'}, {'nbf': '0000-01-01T00:00:00+01:00'},
                  {'exp': '9999-12-31T23:59:59Z'}, {'nbf': '0000-01-01T00:00:00Z'}]
-CHECKS = [[], [{'key': 'iat', 'value': '2019-01-01T00:00:00+00:00'}], [{'key': 'sub', 'value': 'a'}], [{'key': 'n', 'value': 1}], [{'key': 'n', 'value': '1'}], [{'key': 'sub', 'value': 'a'}, {'key': 'n', 'value': 1}],
+CHECKS = [[], [{'key': 'nbf', 'value': '2099-01-01T00:00:00Z'}], [{'key': 'exp', 'value': '2001-01-01T00:00:00Z'}], [{'key': 'iat', 'value': '2019-01-01T00:00:00+00:00'}], [{'key': 'sub', 'value': 'a'}], [{'key': 'n', 'value': 1}], [{'key': 'n', 'value': '1'}], [{'key': 'sub', 'value': 'a'}, {'key': 'n', 'value': 1}],
           [{'key': 'sub', 'value': 'b'}, {'key': 'sub', 'value': 'a'}]]
 VALIDATORS = [[], [{'key': 'x', 'kind': 'reject', 'via': 'extend'}], [{'key': 'x', 'kind': 'accept', 'via': 'extend'}], [{'key': 'x', 'kind': 'reject_if_null', 'via': 'validate'}],
               [{'key': 'a/b', 'kind': 'reject_if_null', 'via': 'validate'}], [{'key': 'a~b', 'kind': 'reject_if_null', 'via': 'validate'}], [{'key': 'sub', 'kind': 'reject', 'via': 'validate'}],
@@ -276,7 +276,7 @@ def expected_parse(payload, checks, validators, default_parser):
     vkeys = {v['key']: v for v in validators}
     ok = True
     for c in {c_['key']: c_ for c_ in checks}.values():      # the expectation given last for a key is the one in force
-        if c['key'] in vkeys: continue
+        if c['key'] in vkeys or (default_parser and c['key'] in ('exp', 'nbf')): continue      # a key with a validator (the default parser has them for exp and nbf) is validated, not compared
         if payload.get(c['key']) is None or payload.get(c['key']) != c['value'] or type(payload.get(c['key'])) != type(c['value']): ok = False
     calls = {}
     for k, v in vkeys.items():
@@ -334,11 +334,11 @@ def confirm_parser(ses, v, time_claims=False):
     unauth = []
     if not time_claims:
         steps += key_steps(proto, {'key': '08' * 32, 'seed': '08' * 32}, 'k2')
-        steps += [{'op': 'mutate', 'in': '$T10', 'out': 'TB0', 'ops': [{'payload_xor': [6, 1]}]}, {'op': 'mutate', 'in': '$T10', 'out': 'TB1', 'ops': [{'payload_xor': [40, 0x80]}]}]
+        steps += [{'op': 'mutate', 'in': '$T12', 'out': 'TB0', 'ops': [{'payload_xor': [6, 1]}]}, {'op': 'mutate', 'in': '$T12', 'out': 'TB1', 'ops': [{'payload_xor': [40, 0x80]}]}]
         for layer in ('generic', 'prelude'):
             nm = 'U_' + layer
             steps.append({'op': 'parser_run', 'proto': proto, 'layer': layer, 'default_parser': False, 'key': '$k_pk', 'alt_key': '$k2_pk', 'alt_key_for': [2], 'footer': None, 'assertion': None, 'checks': [],
-                          'validators': [{'key': 'x', 'kind': 'accept', 'via': 'validate'}], 'tokens': ['$TB0', '$TB1', '$T10'], 'out': nm}); unauth.append(nm)
+                          'validators': [{'key': 'x', 'kind': 'accept', 'via': 'validate'}], 'tokens': ['$TB0', '$TB1', '$T12'], 'out': nm}); unauth.append(nm)
     out = run_native({'steps': steps, 'violated_if': []}); ses.native_runs = getattr(ses, 'native_runs', 0) + 1
     tr_all = [t for t in (out.get('trace') or []) if 'parser_run' in t]
     for t in [t for t in tr_all if t['parser_run'] in unauth]:
@@ -369,8 +369,15 @@ def confirm_parser(ses, v, time_claims=False):
     return False
 
 
-PY_CONFIRM.update({'c15': lambda ses, v: confirm_parser(ses, v), 'c16': lambda ses, v: confirm_parser(ses, v), 'c15_registration': lambda ses, v: confirm_parser(ses, v), 'c16_registration': lambda ses, v: confirm_parser(ses, v), 'c11': lambda ses, v: confirm_parser(ses, v, True),
-                   'c12': lambda ses, v: confirm_parser(ses, v, True)})
+def confirm_time_rules(ses, v):
+    """exp / nbf rules of the default parser: the payload family first, then one parser over time (a verdict or a clock reading remembered between parses)"""
+    r = confirm_parser(ses, v, True)
+    if r: return r
+    v.setdefault('replay', {}); return confirm_history(ses, v)
+
+
+PY_CONFIRM.update({'c15': lambda ses, v: confirm_parser(ses, v), 'c16': lambda ses, v: confirm_parser(ses, v), 'c15_registration': lambda ses, v: confirm_parser(ses, v), 'c16_registration': lambda ses, v: confirm_parser(ses, v), 'c11': confirm_time_rules,
+                   'c12': confirm_time_rules})
 
 
 # ----------------------------------------------------------------------------- claim constructors (C18)
@@ -381,7 +388,7 @@ def confirm_claims(ses, v):
     if isinstance(mk, str): keys.add(mk)
     cases = [{'kind': 'custom', 'form': f, 'text': k} for k in sorted(keys) for f in ('key_only', 'tuple_str', 'tuple_string')]
     good = ['2019-01-01T00:00:00Z', '2019-01-01T00:00:00+00:00', '2031-12-31T23:59:59.123Z', '2031-12-31T23:59:59-07:30',
-            '2031-07-04T12:34:56.123456789+05:30', '2031-07-04T12:34:56.12345-11:00', '2031-07-04T12:34:56.123456789Z', '9999-12-31T23:59:59+14:00', '0001-01-01T00:00:00Z']
+            '2031-07-04T12:34:56.123456789+05:30', '2031-07-04T12:34:56.12345-11:00', '2031-07-04T12:34:56.123456789Z', '9999-12-31T23:59:59+14:00', '0001-01-01T00:00:00Z', '2019-01-01T00:00:00-00:00', '2019-01-01T00:00:00.5-00:00']
     bad = ['hello', '', ' 2019-01-01T00:00:00Z', '\n2019-01-01T00:00:00Z', 'x2019-01-01T00:00:00Z', 'T00:00:00Z', 'exp']
     for k in ('exp', 'nbf', 'iat'):
         for f in ('str', 'string'):
